@@ -284,9 +284,10 @@ def derived_seed():
     return prefix
 
 
-def closure(chk, height: int, max_nodes: int, npool: int, max_apps: int, agg, seed_theorems=()):
-    pool = universe.META_POOL[:npool]
-    pool = pool + tuple(t for t in universe.META_POOL[-3:] if t not in pool)
+def closure(chk, height: int, max_nodes: int, npool: int, max_apps: int, agg, seed_theorems=(), pool=None, unary_only=False, tag='closure'):
+    if pool is None:
+        pool = universe.META_POOL[:npool]
+        pool = pool + tuple(t for t in universe.META_POOL[-3:] if t not in pool)
     known: dict[str, str] = {}
     for t in seed_theorems:
         known[t] = {'how': 'derived seed (toolkit proof of phi0->phi0 / bot->phi0 run on the real checker)'}
@@ -298,7 +299,7 @@ def closure(chk, height: int, max_nodes: int, npool: int, max_apps: int, agg, se
         if r is not None and r not in known:
             known[r] = {'how': f'axiom opcode {a[1]}'}
             new.append(r)
-    agg['closure_levels'] = [len(new)]
+    agg[tag + '_levels'] = [len(new)]
     total_apps = 0
     capped = False
     for lvl in range(1, height + 1):
@@ -306,7 +307,9 @@ def closure(chk, height: int, max_nodes: int, npool: int, max_apps: int, agg, se
         newset = set(new)
         apps = []
         mp_apps = []
-        if lvl <= 1:
+        if unary_only:
+            pass
+        elif lvl <= 1:
             for t1 in allt:
                 for t2 in allt:
                     if t1 in newset or t2 in newset:
@@ -355,17 +358,17 @@ def closure(chk, height: int, max_nodes: int, npool: int, max_apps: int, agg, se
                 if r in known:
                     continue
                 if node_count(r) > max_nodes:
-                    agg['closure_oversize'] = agg.get('closure_oversize', 0) + 1
+                    agg[tag + '_oversize'] = agg.get(tag + '_oversize', 0) + 1
                     continue
                 desc = f'{a[0]}(' + ', '.join(x if isinstance(x, str) else json.dumps(x, default=lambda o: rm.show(o) if isinstance(o, tuple) else str(o)) for x in a[1:]) + ')'
-                known[r] = {'how': f'closure level {lvl}: {desc[:600]}'}
+                known[r] = {'how': f'{tag} level {lvl}: {desc[:600]}'}
                 new.append(r)
-        agg['closure_levels'].append(len(new))
+        agg[tag + '_levels'].append(len(new))
         agg['closure_accepted'] = agg.get('closure_accepted', 0) + accepted
         if not new:
             break
-    agg['closure_applications'] = total_apps
-    agg['closure_capped'] = capped
+    agg['closure_applications'] = agg.get('closure_applications', 0) + total_apps
+    agg['closure_capped'] = agg.get('closure_capped', False) or capped
     return known
 
 
@@ -462,6 +465,14 @@ def main(argv=None) -> int:
                     400000 if not thorough else 4000000, agg, seed_theorems)
     for t, w in known.items():
         theorems.setdefault(t, w)
+    # chains of the unary rules only (instantiate, generalise, substitute) from the derived theorems: one level deeper than
+    # the full closure, over a pool of variables (binder / variable coincidences need several quantifier steps in a row)
+    vpool = (rm.evar(0), rm.evar(1), rm.svar(0), rm.svar(1), rm.mv(1), rm.ex(1, rm.evar(0)), rm.mu(0, rm.evar(0)))
+    known2 = closure(chk, 4 if not thorough else 5, 9 if not thorough else 11, 0, 400000 if not thorough else 4000000, agg,
+                     seed_theorems, pool=vpool, unary_only=True, tag='chain')
+    for t, w in known2.items():
+        theorems.setdefault(t, w)
+    known = dict(known2, **known)
     agg['distinct_theorems'] = len(theorems)
     budget = 64 if not thorough else 512
     maxn = 3
